@@ -683,10 +683,48 @@ void HandleAssignments() {
   Sink(std::move(t));
   Sink(std::move(fo));
 }
+
+// An error type that converts implicitly to the value type (an errno-style wrapper): a callback taking the value is
+// then invocable with the error as well; it must still be classified by what it was written for (the value comes first).
+struct Errno {
+  Errno(yaclib::StopTag) noexcept : code{125} {
+  }
+  explicit Errno(int c) noexcept : code{c} {
+  }
+  operator int() const noexcept {
+    return code;
+  }
+  static const char* What() noexcept {
+    return "Errno";
+  }
+  int code;
+};
+
+void ConvertibleError() {
+  Sink(yaclib::MakeFuture<int, Errno>(1).ThenInline([](int v) {
+    return v + 1;
+  }));
+  Sink(yaclib::MakeFuture<int, Errno>(1).Then(Exe(), [](int v) {
+    return v + 1;
+  }));
+  Sink(yaclib::MakeFuture<int, Errno>(1).ThenInline([](Errno e) {
+    return e.code;
+  }));
+  Sink(yaclib::MakeFuture<int, Errno>(1).ThenInline([](std::exception_ptr) {
+    return 0;
+  }));
+  Sink(yaclib::MakeTask<int, Errno>(1).ThenInline([](int v) {
+    return v + 1;
+  }));
+  Sink(yaclib::MakeTask<int, Errno>(1).ThenInline([](Errno e) {
+    return e.code;
+  }));
+}
 }  // namespace probe
 
 extern "C" void probe_async_all() {
   using namespace probe;
+  ConvertibleError();
   SubmitFunctors();
   MultiWaits();
   HandleAssignments();
